@@ -18,7 +18,7 @@ reach the loop continuation without any table write, all other inputs are consum
 transaction-level storage transaction whose commit is dominated by execute_transaction's ok-edge
 and which is the only escape of its writes; the block's transaction list and tx_count are
 updated only after that commit succeeded; in process_l2_txs the error arm and the gas-overflow
-arm only record the skip.
+arm only record the skip. (6) no transaction-level rejection after the first event of the transaction was recorded: after spend_input_utxos only the `?` of persist_output_utxos / ProcessedTransactions.insert / update_execution_data may fail.
 """
 NOT_DECIDED = """What the VM itself writes before reverting (inside the sub-transaction that is dropped)."""
 
